@@ -10,8 +10,9 @@
 
    Guard [c03_guard] (decidable): [c02_guard] of C02 plus the input classes of the open findings
    K_getset_excluded_field (a `_`-prefixed / new:"-" field gets no accessors) and K_getset_once_shadow
-   (a field that shares its name with a deeper field or an embedded struct is skipped), each refuted by
-   a witness below.  This file contains only statements closed by [exact]. *)
+   (a field whose name occurs EARLIER in depth-first declaration order -- below an embedded field declared
+   before it -- is skipped; a field that shadows a promoted one declared after it is inside the guard),
+   each refuted by a witness below.  This file contains only statements closed by [exact]. *)
 From Coq Require Import String Ascii List Bool Arith ZArith.
 From Shoot Require Import Base.Str Base.GoVal Model.Transfer Model.CtorDirective Model.Ctor Model.CtorSpec Model.CtorGetSet.
 From Shoot Require Import Proofs.GoValProofs Proofs.CtorFlattenProofs Proofs.CtorC02Proofs Proofs.CtorGetSetProofs Proofs.CtorGetSetSemProofs
@@ -105,8 +106,21 @@ Theorem C03_embedded_interfaces : forall pkg v fl fuel sd fields d nd,
 Proof. exact embedded_interfaces. Qed.
 Print Assumptions C03_embedded_interfaces.
 
-(* The complete method set of the interface shoot declares for T, in the package once T's file is loaded:
-   the accessor table's methods plus the complete method sets of the admitted embedded interfaces. *)
+(* ... and conversely: every embedded struct entry of the flattened list that is the first entry of its name, whose
+   interface is declared in the view with matching arity and implemented by the pointer to the struct, IS embedded
+   (when T's type-level directive admits getters / setters).  Together: <T>Getter embeds exactly those. *)
+Theorem C03_embedded_interfaces_complete : forall pkg v fl fuel sd fields d nd (getter : bool) l1 f l2 ve args,
+  getset_of pkg v fl fuel sd = COk (fields, d, nd) ->
+  fields = (l1 ++ f :: l2)%list -> f_embedded f = true -> ~ In (f_name f) (map f_name l1) ->
+  (if getter then fst (type_switch fl sd) else snd (type_switch fl sd)) = true ->
+  find_iface v (f_name f) getter = Some ve ->
+  assignable_to_iface pkg v fuel (f_ty f) ve getter = Some (args, true) ->
+  In (f_name f, args) (if getter then gs_get_ifaces d else gs_set_ifaces d).
+Proof. exact embedded_interfaces_complete. Qed.
+Print Assumptions C03_embedded_interfaces_complete.
+
+(* Unfolding lemma (this is Go's definition of an interface's method set, applied to the declaration shoot emits):
+   explicit methods = the accessor table, embedded part = the admitted interfaces, one level of nesting less. *)
 Theorem C03_interface_method_set : forall pkg v fl fuel sd fields d nd getter k,
   getset_of pkg v fl fuel sd = COk (fields, d, nd) ->
   c03_guard pkg fl fuel sd = true ->
@@ -121,6 +135,30 @@ Theorem C03_interface_method_set : forall pkg v fl fuel sd fields d nd getter k,
 Proof. exact interface_method_set. Qed.
 Print Assumptions C03_interface_method_set.
 
+(* The complete method set does not depend on the fuel once the fuel covers the nesting of the embedded interfaces
+   (iface_ok is FALSE when the fuel runs out): the set used below is the whole set, not a truncation. *)
+Theorem C03_interface_method_set_stable : forall pkg v fl fuel sd fields d nd (getter : bool) k1 k2,
+  getset_of pkg v fl fuel sd = COk (fields, d, nd) ->
+  c03_guard pkg fl fuel sd = true ->
+  (forall ia : ident * list ty, In ia (if getter then gs_get_ifaces d else gs_set_ifaces d) ->
+     iface_ok v fuel getter (sd_name sd) (fst ia) = true) ->
+  S fuel <= k1 -> S fuel <= k2 ->
+  let v' := view_put v (ventry_of sd nd d) in
+  let tps := ve_tparams (ventry_of sd nd d) in
+  iface_methods v' k1 getter (sd_name sd) (map TParam tps) = iface_methods v' k2 getter (sd_name sd) (map TParam tps).
+Proof. exact interface_method_set_stable. Qed.
+Print Assumptions C03_interface_method_set_stable.
+
+(* The body of an emitted accessor is `this.<f>` inside a method of the declaring struct: Go's selector rule resolves
+   the name of a table field, inside the declaring struct, to that struct's own field (depth 0), whatever it embeds.
+   (The model's accessor semantics reads / assigns exactly that field; the wiring name -> field of the template text
+   itself is tied by the executed stream.) *)
+Theorem C03_accessor_body_selects_own_field : forall pkg fl fuel sd getter a k,
+  wf_structs pkg fuel sd = true -> In a (spec_accessors fl sd getter) ->
+  resolve pkg (S k) sd (af_name a) = Some [af_name a].
+Proof. exact accessor_body_selects_own_field. Qed.
+Print Assumptions C03_accessor_body_selects_own_field.
+
 (* *T satisfies the explicit part: every accessor of the table is selected on *T by its name (it is
    declared on T itself, no field hides it, no other accessor has its name), with the table's signature. *)
 Theorem C03_own_accessors_in_method_set : forall pkg v fl fuel sd fields d nd getter a,
@@ -132,20 +170,31 @@ Theorem C03_own_accessors_in_method_set : forall pkg v fl fuel sd fields d nd ge
 Proof. exact own_accessors_selected. Qed.
 Print Assumptions C03_own_accessors_in_method_set.
 
-(* *T satisfies <T>Getter and <T>Setter: every method of the COMPLETE method set of the interface shoot
-   declares for T (explicit accessors and everything the embedded interfaces bring, transitively) is in the
-   method set of *T with the same signature -- in the package as it is once T's file is loaded.
-   Guards (decidable, besides c03_guard): no accessor of T's embedding closure is hidden on *T by a field /
-   embedded field or another accessor of the same name (finding K_getset_field_hides_accessor, refuted
-   below); the embedding is acyclic; the admitted interfaces do not lead back to T's own interface. *)
-Theorem C03_pointer_receiver_satisfies : forall pkg v fl fuel sd fields d nd getter,
+(* Accessor names that are unique among ALL member names of the embedding closure (fields, embedded fields,
+   accessors) are all visible on *T: Go's selection finds each accessor by its name at the depth of its declaring
+   struct, nothing shallower hides it, nothing at the same depth clashes. *)
+Theorem C03_unique_names_visible : forall pkg v fuel sd,
+  depth_bounded pkg fuel sd = true ->
+  accessor_names_unique pkg v fuel sd = true -> accessors_visible pkg v fuel sd = true.
+Proof. exact unique_names_visible. Qed.
+Print Assumptions C03_unique_names_visible.
+
+(* *T satisfies <T>Getter and <T>Setter: every method of the COMPLETE method set of the interface shoot declares
+   for T (explicit accessors and everything the embedded interfaces bring, transitively; at every fuel >= S fuel) is
+   in the method set of *T with the same signature -- in the package as it is once T's file is loaded.
+   All guards are conditions on the INPUT (struct graph, directive tables, package view):
+   accessor names unique among the member names of T's closure, taken over the view extended by T's DIRECTIVE TABLE
+   (spec_entry, not the model's output; finding K_getset_field_hides_accessor, refuted below); acyclic embedding; the
+   interfaces of the embedded structs have bounded nesting and do not lead back to T's own. *)
+Theorem C03_pointer_receiver_satisfies : forall pkg v fl fuel sd fields d nd getter k,
   getset_of pkg v fl fuel sd = COk (fields, d, nd) ->
   c03_guard pkg fl fuel sd = true -> sd_pkg sd = "" ->
+  accessor_names_unique pkg (view_put v (spec_entry fl sd)) fuel sd = true ->
+  not_self_embedded pkg fuel sd = true -> view_ok pkg v fuel sd = true ->
+  S fuel <= k ->
   let v' := view_put v (ventry_of sd nd d) in
-  accessors_visible pkg v' fuel sd = true ->
-  not_self_embedded pkg fuel sd = true -> ifaces_avoid v fuel sd d = true ->
   implements pkg v' (S fuel) (self_inst sd)
-             (iface_methods v' (S fuel) getter (sd_name sd) (map TParam (ve_tparams (ventry_of sd nd d)))) = true.
+             (iface_methods v' k getter (sd_name sd) (map TParam (ve_tparams (ventry_of sd nd d)))) = true.
 Proof. exact pointer_receiver_satisfies. Qed.
 Print Assumptions C03_pointer_receiver_satisfies.
 
@@ -228,8 +277,8 @@ Example C03_example_satisfies_guards :
   | COk (_, v) =>
       match getset_of ex_pkg v gs_flags 8 ex_son with
       | COk (_, d, nd) =>
-          accessors_visible ex_pkg (view_put v (ventry_of ex_son nd d)) 8 ex_son = true /\
-          not_self_embedded ex_pkg 8 ex_son = true /\ ifaces_avoid v 8 ex_son d = true /\
+          accessor_names_unique ex_pkg (view_put v (spec_entry gs_flags ex_son)) 8 ex_son = true /\
+          not_self_embedded ex_pkg 8 ex_son = true /\ view_ok ex_pkg v 8 ex_son = true /\
           gs_get_ifaces d = [("Base", [])]
       | _ => False
       end
@@ -303,8 +352,9 @@ Theorem C03_refuted_K_getset_field_hides_accessor :
     (exists out, run_getset pkg gs_flags 8 ["Base"] [] = COk (out, v)) /\
     getset_of pkg v gs_flags 8 sd = COk (fields, d, nd) /\
     c03_guard pkg gs_flags 8 sd = true /\ sd_pkg sd = "" /\
-    not_self_embedded pkg 8 sd = true /\ ifaces_avoid v 8 sd d = true /\
+    not_self_embedded pkg 8 sd = true /\ view_ok pkg v 8 sd = true /\
     gs_get_ifaces d = [("Base", [])] /\
+    accessor_names_unique pkg (view_put v (spec_entry gs_flags sd)) 8 sd = false /\
     accessors_visible pkg (view_put v (ventry_of sd nd d)) 8 sd = false /\
     implements pkg (view_put v (ventry_of sd nd d)) 9 (self_inst sd)
                (iface_methods (view_put v (ventry_of sd nd d)) 9 true (sd_name sd) []) = false.
@@ -317,3 +367,40 @@ Proof.
   - split; [reflexivity|]. vm_compute in E. inversion E; subst. vm_compute. repeat split; reflexivity.
 Qed.
 Print Assumptions C03_refuted_K_getset_field_hides_accessor.
+
+(* A field that shadows a promoted one declared AFTER it is inside the guard: Son{z string; Base; k int} with Base.z --
+   the analysis emits exactly the table (z and k) *)
+Definition w_son2 : sdecl :=
+  {| sd_pkg := ""; sd_name := "Son"; sd_tparams := []; sd_doc := "";
+     sd_fields := [fd1 "z" (TBasic "string") ""; emb (TNamed "" "Base" []); fd1 "k" (TBasic "int") ""] |}.
+
+Example C03_example_shadow_in_guard :
+  c03_guard [w_base; w_son2] gs_flags 8 w_son2 = true /\
+  match getset_of [w_base; w_son2] [] gs_flags 8 w_son2 with
+  | COk (_, d, _) => map af_name (gs_getters d) = ["z"; "k"] /\ gs_getters d = spec_accessors gs_flags w_son2 true
+  | _ => False
+  end.
+Proof. vm_compute. repeat split; reflexivity. Qed.
+
+(* K_getset_shadow_type_conflict: Son{z string; Base; k int} with Base{z int} -- inside c03_guard; SonGetter declares
+   Z() string and embeds BaseGetter with Z() int: two methods of one name with different signatures (Go: duplicate
+   method Z, the generated file does not compile) *)
+Definition w_ibase : sdecl :=
+  {| sd_pkg := ""; sd_name := "Base"; sd_tparams := []; sd_doc := ""; sd_fields := [fd1 "z" (TBasic "int") ""] |}.
+Definition w_c_pkg : pkg_spec := [w_ibase; w_son2].
+Definition w_c_view : view :=
+  Eval vm_compute in match run_getset w_c_pkg gs_flags 8 ["Base"] [] with COk (_, v) => v | _ => [] end.
+
+Theorem C03_refuted_K_getset_shadow_type_conflict :
+  exists pkg v sd fields d nd,
+    getset_of pkg v gs_flags 8 sd = COk (fields, d, nd) /\
+    c03_guard pkg gs_flags 8 sd = true /\ not_self_embedded pkg 8 sd = true /\ view_ok pkg v 8 sd = true /\
+    accessor_names_unique pkg (view_put v (spec_entry gs_flags sd)) 8 sd = false /\
+    map (fun m => (gm_name m, type_string (gm_ty m)))
+        (iface_methods (view_put v (ventry_of sd nd d)) 9 true (sd_name sd) []) = [("Z", "int"); ("Z", "string"); ("K", "int")].
+Proof.
+  exists w_c_pkg, w_c_view, w_son2.
+  destruct (getset_of w_c_pkg w_c_view gs_flags 8 w_son2) as [[[fields d] nd]| |] eqn:E; try (vm_compute in E; discriminate).
+  exists fields, d, nd. split; [reflexivity|]. vm_compute in E. inversion E; subst. vm_compute. repeat split; reflexivity.
+Qed.
+Print Assumptions C03_refuted_K_getset_shadow_type_conflict.
